@@ -62,6 +62,39 @@ Proof.
 Qed.
 Print Assumptions C12_released_stay_gone_delete_fault_refuted.
 
+(* Stop points inside a release.  [Rel i] is the completed release (in-memory part, then the checkpoint Delete has
+   taken effect).  [RelStop i putdone p f now] is a stop in the middle: the in-memory part has run, the Delete has
+   been issued but has not taken effect — it is at the Store or waits behind the write that is at the Store, which
+   has completed ([putdone]: "Put applied, Delete not yet") or not.  Because [RelStop] is an operation of the
+   history, [C12_released_stay_gone], [C12_reserved_before_alloc] and [C12_established_has_image] quantify over these
+   stop points as well.  What happens to the session itself: it does not count as released (the release never
+   completed, no event was published), and it is restored exactly from what the store holds at that point. *)
+Theorem C12_stop_during_release :
+  forall c s i putdone (p : bool) f now,
+  released (fst (do_relstop c s i putdone p f now)) = released s /\
+  (forall k r, aget k (store (relstop_pre c s i putdone)) = Some r -> expired c now r = false ->
+     exists r', aget k (live (fst (do_relstop c s i putdone p f now))) = Some r' /\ same_core r r').
+Proof. exact stop_during_release. Qed.
+Print Assumptions C12_stop_during_release.
+
+(* the stop "Put applied, Delete not yet": the session is back, with the image of that Put; a completed release is not *)
+Example C12_stop_during_release_witness :
+  (exists s r, run (repaired PPPoE 4 4 2) init
+       [New (est 0) (Some 0) None None; Ck 0; RelStop 0 true true None 0%Z] = Some s /\
+     aget 0 (live s) = Some r /\ s_stamp r = Some 0 /\ released s = []) /\
+  (exists s, run (repaired PPPoE 4 4 2) init
+       [New (est 0) (Some 0) None None; Ck 0; RelStop 0 false true None 0%Z] = Some s /\ aget 0 (live s) = None) /\
+  (exists s, run (repaired PPPoE 4 4 2) init
+       [New (est 0) (Some 0) None None; Ck 0; Rel 0; Done 0 false; Crash true None 0%Z] = Some s /\
+     aget 0 (live s) = None /\ released s = [0]).
+Proof.
+  split; [|split].
+  - eexists. eexists. split; [vm_compute; reflexivity|]. repeat split.
+  - eexists. split; [vm_compute; reflexivity|]. reflexivity.
+  - eexists. split; [vm_compute; reflexivity|]. split; reflexivity.
+Qed.
+Print Assumptions C12_stop_during_release_witness.
+
 (* An ESTABLISHED session has its image in the store.  [completed s] is the history record of the checkpoint images
    that took effect: (i, t) enters it exactly when the checkpoint call stamped t of session i is a synchronous
    checkpoint ([C12_window_closed_by_sync]) or its asynchronous Put completes, effective and not failed by the fault
